@@ -20,7 +20,9 @@ func (pmm *PartialMessageManager) VerifPending() (partials, discovered, removals
 }
 
 // VerifChainExchange returns the chain exchange the manager looks chains up in.
-func (pmm *PartialMessageManager) VerifChainExchange() *chainexchange.PubSubChainExchange { return pmm.chainex }
+func (pmm *PartialMessageManager) VerifChainExchange() *chainexchange.PubSubChainExchange {
+	return pmm.chainex
+}
 
 // VerifLimits returns the configured bounds.
 func (pmm *PartialMessageManager) VerifLimits() (maxBufferedPerInstance, completedBuffer int) {
